@@ -387,6 +387,10 @@ pub fn run_session<C: Autocomplete + Help>(
     let mut shadow = InputGenerator::new();
     let mut ed = RefEditor::new(cfg.cmd);
     let mut hist = RefHistory::new(cfg.hist);
+    // C01, "the line as it stood after every insertion, deletion, cursor move ...": the keys as the *statement of C04*
+    // reads them off the byte stream (not as the library's decoder does), applied to an ideal editor
+    let mut refdec = RefDecoder::new();
+    let mut typed = RefEditor::new(cfg.cmd);
     let mut ev_seen = 0usize; // sink events consumed so far
     let mut th: u64 = 0x1234;
 
@@ -470,6 +474,59 @@ pub fn run_session<C: Autocomplete + Help>(
             found!("C03", P_C03, "spurious-error", "err-without-fault", i, "API call returned {:?} although the sink never failed", e);
             res.transcript = th;
             return res;
+        }
+
+        // ---- C01 against the keys the byte stream spells (reference decoder), independent of the library's decoder
+        if let (true, Op::Byte(b)) = (on(P_C01), op) {
+            let kref = refdec.accept(*b);
+            if !refdec.open_point {
+                match kref {
+                    Some(Key::Char(c)) => {
+                        typed.insert(c);
+                    }
+                    Some(Key::Backspace) => {
+                        typed.backspace();
+                    }
+                    Some(Key::Left) => {
+                        typed.left();
+                    }
+                    Some(Key::Right) => {
+                        typed.right();
+                    }
+                    // recall and completion replace the line; by what is C10's / C11's business
+                    Some(Key::Up) | Some(Key::Down) | Some(Key::Tab) => {
+                        if let Ok(l) = core::str::from_utf8(&post.line) {
+                            typed.set(l, post.cursor);
+                        }
+                    }
+                    Some(Key::Enter) => {
+                        rep.eval();
+                        let recs = &rig.proc.log[log0..];
+                        let line = typed.text();
+                        let mut ok = false;
+                        for toks in ref_tokenize_set(&line) {
+                            if toks.is_empty() {
+                                ok |= recs.is_empty();
+                            } else {
+                                let items = ref_classify(&toks[1..]);
+                                let (is_help, is_open) = if env.help_on { help_shape(&toks[0], &items) } else { (false, false) };
+                                if is_help || is_open {
+                                    ok |= recs.is_empty();
+                                }
+                                if !is_help && recs.len() == 1 && recs[0].name == toks[0].as_bytes() && recs[0].args == items_to_rec(&items) {
+                                    ok = true;
+                                }
+                            }
+                        }
+                        // only where the library's own decoder read something else (otherwise the clauses below judge it)
+                        if !ok && (key != Shadow::Key(Key::Enter) || line.trim_end_matches(' ') != ed.text().trim_end_matches(' ')) {
+                            found!("C01", P_C01, "dispatch", "differs-from-typed-keys", i, "Enter: the keys spelled by the byte stream leave the line {:?}, but the handler got {}", line, show_recs(recs));
+                        }
+                        typed.clear();
+                    }
+                    None => {}
+                }
+            }
         }
 
         // ---- invariants (shared by C02/C03)
